@@ -218,7 +218,7 @@ func runC12Exit(t testing.TB, c C12ExitCase) (key, what string) {
 		return "HARNESS", err.Error()
 	}
 	defer p.Kill()
-	if !p.WaitOutput(30*time.Second, "To get a shell") {
+	if !p.WaitOutput(30*time.Second, "To get a shell") || !p.WaitOutput(10*time.Second, "/c | /bin/sh") {
 		return "HARNESS", "program did not start: " + clip(p.Output(), 300)
 	}
 	addr := ListenAddr(p.Output())
